@@ -71,6 +71,7 @@ class SymSim:
     s.group = sched or group
     s.block_path_budget = block_path_budget
     s.stats = dict(blk_calls=0, blk_paths=0)
+    s.logging = False; s.call_log = []
     saved = (SimpleTickPass.__dict__['gen_tick_function'], UnrollSimPass.__dict__['gen_tick_function'], Mamba2020Pass.compile_meta_block)
     if merge:
       o1, o2, o3 = saved[0].__func__, saved[1].__func__, saved[2]
@@ -210,6 +211,7 @@ class SymSim:
   # -- block-level fork and merge ------------------------------------------------------
   def wrap(s, blk, keep=None):
     def wrapper():
+      if s.logging: s.call_log.append(blk)
       outer = Explorer.cur
       if outer is None: return blk()
       s.stats['blk_calls'] += 1
@@ -240,6 +242,16 @@ class SymSim:
     if keep is not None and blk in getattr(keep, 'branchiness', {}):     # Mamba annotates meta-block source per block
       keep.branchiness[wrapper] = keep.branchiness[blk]; keep.only_loop_at_top[wrapper] = keep.only_loop_at_top[blk]
     return wrapper
+
+  def executed_order(s, what='eval'):
+    """the blocks actually called by one real sim_eval_combinational()/sim_tick() (concrete run from the zero state)"""
+    s.zero_state()
+    s.call_log = []; s.logging = True
+    try:
+      (s.top.sim_eval_combinational if what == 'eval' else s.top.sim_tick)()
+    finally:
+      s.logging = False
+    return list(s.call_log)
 
   def summarize(s, blk, vars_=None):
     """f_b: run one (raw) block from the fully symbolic state; returns (vars, {cell: term}, raised: z3 Bool)"""
